@@ -188,4 +188,7 @@ Proof.
   - intros q e0 Hq. apply D1. eapply In_remove_id. exact Hq.
   - intros q e0 Hq. pget_split Hq; [|eapply D3; eassumption].
     inversion Hq; subst. apply D1. apply find_id_In. assumption.
+  - intros q e0 Hq. apply D1. eapply In_remove_id. exact Hq.
+  - intros q e0 Hq. pget_split Hq; [|eapply D3; eassumption].
+    inversion Hq; subst. apply D1. apply find_id_In. assumption.
 Qed.
